@@ -5,8 +5,9 @@ here = os.path.dirname(os.path.dirname(os.path.abspath(__file__)))
 levels = json.load(open(os.path.join(here, "levels.json")))
 ld = os.path.join(here, "levels.d")
 if os.path.isdir(ld):
+    ready = set(json.load(open(os.path.join(here, "claimed.json"))))   # overlay entries released for claiming
     for f in sorted(os.listdir(ld)):
-        if f.endswith(".json"):
+        if f.endswith(".json") and f[:-5] in ready:
             levels[f[:-5]] = json.load(open(os.path.join(ld, f)))
 na = json.load(open(os.path.join(here, "na.json")))
 props = [json.loads(l)["id"] for l in open(os.path.join(here, "properties.jsonl"))]
